@@ -1,3 +1,1055 @@
-//! C16 — not built yet.
-pub const BUILT: bool = false;
-pub fn run(_rep: &mut vx::Report) {}
+//! C16 — page operations preserve page content and geometry.
+//!
+//! Space (all enumerated, nothing sampled): source files = refpdf-built n-page documents
+//! (inherited MediaBox/CropBox/Resources/Rotate on an intermediate /Pages node, MediaBox with
+//! a non-zero origin and a real coordinate, own and inherited CropBox, a TrimBox, /Rotate in
+//! {0, 90, -90, 450}, a Type1 font, an image with a soft mask, content as one stream / an
+//! array of streams / Flate) written classic and as xref-stream + object-stream files, plus
+//! library-authored documents. Operations, each through its public path-based entry point:
+//!  * `split`   every mode: SinglePages, ChunkSize 1..=n+1, SplitAt every subset of interior
+//!              points, Ranges with every 1- (and 2-) element vector over a range menu;
+//!  * `extract` every page sequence of length 1..=n (subsets, permutations, duplicates),
+//!              single page, every PageRange form;
+//!  * `reorder` every sequence of length 1..=n, reverse, every swap(i,j), every move(i,j);
+//!  * `rotate`  every angle (enum and from_degrees incl. negative / >360) x every page range
+//!              form (every subset as a List, All, Single, Range);
+//!  * `merge`   every ordered pair of sources x a page-range menu on each input;
+//!  * `merge-of-split` every partitioning split mode followed by a merge of the parts.
+//! Oracle: the reference reader (refpdf) reads source and output; output page k must equal
+//! source page sigma(k) in tokenised content, resources (deep, after resolution), MediaBox,
+//! CropBox, Bleed/Trim/ArtBox and (Rotate + angle) mod 360; the library's own reader must
+//! read the output the same way refpdf does.
+use oxidize_pdf::operations as ops;
+use oxidize_pdf::operations::{MergeInput, MergeOptions, PageRange, RotateOptions, RotationAngle, SplitMode, SplitOptions};
+use refpdf::builder::{FileBuilder, Revision, XrefForm};
+use refpdf::content::{parse_content, Op};
+use refpdf::file::PdfFile;
+use refpdf::syntax::{Dict, Obj};
+use serde_json::json;
+use std::collections::BTreeSet;
+use std::path::{Path, PathBuf};
+use std::sync::atomic::{AtomicU64, Ordering};
+use vx::{Ctx, Explore, Report};
+
+pub const BUILT: bool = true;
+
+static FILE_SEQ: AtomicU64 = AtomicU64::new(0);
+static EXTRA_RESOURCES_TOLERATED: AtomicU64 = AtomicU64::new(0);
+static RENAMED_RESOURCES: AtomicU64 = AtomicU64::new(0);
+
+// ------------------------------------------------------------------ reference page model
+
+#[derive(Clone, Debug)]
+struct PageDesc {
+    media: Option<[f64; 4]>,
+    crop: Option<[f64; 4]>,
+    other_boxes: Vec<(String, Option<[f64; 4]>)>, // BleedBox, TrimBox, ArtBox (own entries)
+    rotate: i64,
+    content: Result<Vec<Op>, String>,
+    /// content with every resource-name operand (Tf, Do, gs, sh, cs/CS, scn/SCN, BDC/DP)
+    /// replaced by the value it names in this page's resources: equal iff the pages mean the
+    /// same, also when a resource key was consistently renamed
+    resolved: Result<Vec<Op>, String>,
+    /// /Resources with every reference resolved, streams decoded, numbers normalised
+    resources: Obj,
+}
+
+fn resolve_ops(ops: &[Op], res: &Obj) -> Vec<Op> {
+    let look = |cat: &str, name: &Obj| -> Option<Obj> { res.dict_get(cat)?.as_dict()?.get_b(name.as_name()?).cloned() };
+    ops.iter()
+        .map(|op| {
+            let mut o = op.clone();
+            let n = o.operands.len();
+            let (idx, cat): (Option<usize>, &str) = match o.operator.as_slice() {
+                b"Tf" => (Some(0), "Font"),
+                b"Do" => (Some(0), "XObject"),
+                b"gs" => (Some(0), "ExtGState"),
+                b"sh" => (Some(0), "Shading"),
+                b"cs" | b"CS" => (Some(0), "ColorSpace"),
+                b"scn" | b"SCN" => (n.checked_sub(1), "Pattern"),
+                b"BDC" | b"DP" => (Some(1), "Properties"),
+                _ => (None, ""),
+            };
+            if let Some(i) = idx {
+                if let Some(v) = o.operands.get(i).and_then(|x| look(cat, x)) {
+                    o.operands[i] = v;
+                }
+            }
+            o
+        })
+        .collect()
+}
+
+fn norm_num(o: &Obj) -> Obj {
+    match o {
+        Obj::Real(r) if r.fract() == 0.0 && r.abs() < 1e15 => Obj::Int(*r as i64),
+        Obj::Array(a) => Obj::Array(a.iter().map(norm_num).collect()),
+        Obj::Dict(d) => Obj::Dict(Dict(d.0.iter().map(|(k, v)| (k.clone(), norm_num(v))).collect())),
+        other => other.clone(),
+    }
+}
+
+/// Value of `o` with all indirection removed: references followed (cycles cut), streams
+/// replaced by `<< dict-without-encoding-keys /__data (decoded bytes) >>`, integral reals as
+/// integers, dictionary keys sorted.
+fn canon(f: &PdfFile, o: &Obj, stack: &mut Vec<u32>) -> Obj {
+    match o {
+        Obj::Ref(n, g) => {
+            if stack.contains(n) || stack.len() > 40 {
+                return Obj::name("__cycle");
+            }
+            stack.push(*n);
+            let v = f.get_gen(*n, *g);
+            let r = canon(f, &v, stack);
+            stack.pop();
+            r
+        }
+        Obj::Array(a) => Obj::Array(a.iter().map(|x| canon(f, x, stack)).collect()),
+        Obj::Dict(d) => {
+            let mut e: Vec<(Vec<u8>, Obj)> = d.0.iter().map(|(k, v)| (k.clone(), canon(f, v, stack))).collect();
+            e.sort_by(|a, b| a.0.cmp(&b.0));
+            Obj::Dict(Dict(e))
+        }
+        Obj::Stream(s) => {
+            let mut e: Vec<(Vec<u8>, Obj)> = Vec::new();
+            let data = f.stream_data(s);
+            for (k, v) in s.dict.0.iter() {
+                let ks = k.as_slice();
+                if ks == b"Length" {
+                    continue;
+                }
+                if data.is_ok() && (ks == b"Filter" || ks == b"DecodeParms" || ks == b"DP") {
+                    continue;
+                }
+                e.push((k.clone(), canon(f, v, stack)));
+            }
+            e.push((b"__data".to_vec(), Obj::Str(data.unwrap_or_else(|_| s.data.clone()))));
+            e.sort_by(|a, b| a.0.cmp(&b.0));
+            Obj::Dict(Dict(e))
+        }
+        Obj::Real(_) => norm_num(o),
+        other => other.clone(),
+    }
+}
+
+fn read_pages(bytes: &[u8]) -> Result<Vec<PageDesc>, String> {
+    let f = PdfFile::parse(bytes)?;
+    let pages = f.pages()?;
+    let mut out = Vec::new();
+    for p in &pages {
+        let content: Result<Vec<Op>, String> = f.page_content(p).and_then(|c| parse_content(&c)).map(|ops| {
+            ops.into_iter().map(|op| Op { operator: op.operator, operands: op.operands.iter().map(norm_num).collect() }).collect()
+        });
+        let resources = match p.resources() {
+            Some(r) => canon(&f, r, &mut Vec::new()),
+            None => Obj::Dict(Dict::new()),
+        };
+        let resolved = content.as_ref().map(|ops| resolve_ops(ops, &resources)).map_err(|e| e.clone());
+        let mut other = Vec::new();
+        for k in ["BleedBox", "TrimBox", "ArtBox"] {
+            if let Some(v) = p.dict.get(k) {
+                other.push((k.to_string(), refpdf::file::rect(&f.resolve(v))));
+            }
+        }
+        out.push(PageDesc { media: p.media_box(), crop: p.crop_box(), other_boxes: other, rotate: p.rotate(), content, resolved, resources });
+    }
+    Ok(out)
+}
+
+fn rect_eq(a: &[f64; 4], b: &[f64; 4]) -> bool {
+    a.iter().zip(b).all(|(x, y)| (x - y).abs() < 1e-6)
+}
+
+fn ops_eq(a: &[Op], b: &[Op]) -> bool {
+    a.len() == b.len() && a.iter().zip(b).all(|(x, y)| x.operator == y.operator && x.operands.len() == y.operands.len() && x.operands.iter().zip(&y.operands).all(|(p, q)| p.same(q)))
+}
+
+/// Compare an output page with the source page it must correspond to. Each attribute is
+/// judged on its own so that one known defect never hides another.
+fn compare_page(exp: &PageDesc, angle: i64, got: &PageDesc) -> Vec<(String, String)> {
+    let mut v = Vec::new();
+    // MediaBox
+    match (&exp.media, &got.media) {
+        (Some(e), Some(g)) if rect_eq(e, g) => {}
+        (Some(e), Some(g)) if (e[0] != 0.0 || e[1] != 0.0) && rect_eq(g, &[0.0, 0.0, e[2] - e[0], e[3] - e[1]]) => {
+            v.push(("C16/mediabox-origin-dropped-by-page-copy".into(), format!("source MediaBox {e:?} -> output {g:?}")));
+        }
+        (e, g) => v.push(("C16/mediabox-differs".into(), format!("source MediaBox {e:?} -> output {g:?}"))),
+    }
+    // CropBox (default = MediaBox, ISO 32000-1 Table 30)
+    match (&exp.crop, &got.crop) {
+        (None, None) => {}
+        (Some(e), Some(g)) if rect_eq(e, g) => {}
+        (Some(e), None) => {
+            let harmless = matches!((&exp.media, &got.media), (Some(m), Some(gm)) if rect_eq(e, m) && rect_eq(m, gm));
+            if !harmless {
+                v.push(("C16/cropbox-dropped-by-page-copy".into(), format!("source CropBox {e:?} -> output has none (output MediaBox {:?})", got.media)));
+            }
+        }
+        (None, Some(g)) => {
+            if !matches!(&got.media, Some(m) if rect_eq(m, g)) {
+                v.push(("C16/cropbox-invented".into(), format!("source has no CropBox -> output {g:?}")));
+            }
+        }
+        (e, g) => v.push(("C16/cropbox-differs".into(), format!("source CropBox {e:?} -> output {g:?}"))),
+    }
+    // Bleed/Trim/Art
+    for (k, e) in &exp.other_boxes {
+        match got.other_boxes.iter().find(|(gk, _)| gk == k) {
+            Some((_, g)) if matches!((e, g), (Some(a), Some(b)) if rect_eq(a, b)) => {}
+            None => v.push(("C16/bleed-trim-art-box-dropped-by-page-copy".into(), format!("source /{k} {e:?} -> output has none"))),
+            Some((_, g)) => v.push(("C16/bleed-trim-art-box-differs".into(), format!("source /{k} {e:?} -> output {g:?}"))),
+        }
+    }
+    // Rotate
+    let want = (exp.rotate + angle).rem_euclid(360);
+    if got.rotate.rem_euclid(360) != want {
+        v.push(("C16/rotate-differs".into(), format!("source /Rotate {} + angle {} = {} (mod 360) but output /Rotate {}", exp.rotate, angle, want, got.rotate)));
+    }
+    // content (resource names resolved, see PageDesc::resolved)
+    match (&exp.resolved, &got.resolved) {
+        (Ok(a), Ok(b)) if ops_eq(a, b) => {}
+        (Ok(a), Ok(b)) => {
+            let i = a.iter().zip(b.iter()).position(|(x, y)| x != y).unwrap_or(a.len().min(b.len()));
+            v.push(("C16/content-differs".into(), format!("{} source operators vs {} output operators; first difference at #{i}: {:?} vs {:?}", a.len(), b.len(), a.get(i), b.get(i))));
+        }
+        (a, b) => v.push(("C16/content-unreadable".into(), format!("source {:?} output {:?}", a.as_ref().map(|x| x.len()), b.as_ref().map(|x| x.len())))),
+    }
+    // resources: every source entry must be present and deep-equal
+    let (Some(ed), Some(gd)) = (exp.resources.as_dict(), got.resources.as_dict()) else {
+        v.push(("C16/resources-not-a-dictionary".into(), format!("{:?}", got.resources)));
+        return v;
+    };
+    let mut extras = 0u64;
+    for (cat, ev) in ed.iter() {
+        let cats = String::from_utf8_lossy(cat).to_string();
+        match (ev, gd.get_b(cat)) {
+            (Obj::Dict(es), Some(Obj::Dict(gs))) => {
+                for (name, evv) in es.iter() {
+                    // present under its own name, or under another key with the same value (a
+                    // consistent rename; the resolved-content comparison covers the uses)
+                    match gs.get_b(name) {
+                        Some(gvv) if gvv.same(evv) => {}
+                        other => {
+                            if gs.iter().any(|(_, x)| x.same(evv)) {
+                                RENAMED_RESOURCES.fetch_add(1, Ordering::Relaxed);
+                            } else if let Some(gvv) = other {
+                                v.push(("C16/resource-changed".into(), format!("/{cats} /{}: source {:?} output {:?}", String::from_utf8_lossy(name), evv, gvv)));
+                            } else {
+                                v.push(("C16/resource-missing".into(), format!("/{cats} /{} missing in output", String::from_utf8_lossy(name))));
+                            }
+                        }
+                    }
+                }
+                extras += (gs.len() as u64).saturating_sub(es.len() as u64);
+            }
+            (Obj::Dict(es), None) if es.is_empty() => {}
+            (_, Some(gv)) if gv.same(ev) => {}
+            (_, None) if cat.as_slice() == b"ProcSet" => {}
+            (_, g) => v.push(("C16/resource-category-changed".into(), format!("/{cats}: source {ev:?} output {g:?}"))),
+        }
+    }
+    EXTRA_RESOURCES_TOLERATED.fetch_add(extras, Ordering::Relaxed);
+    v
+}
+
+// ------------------------------------------------------------------ library reader view
+
+#[derive(Debug)]
+struct LibPage {
+    media: [f64; 4],
+    crop: Option<[f64; 4]>,
+    rotate: i64,
+    content: Result<Vec<Op>, String>,
+    res_keys: BTreeSet<(String, String)>,
+}
+
+fn lib_read(path: &Path) -> Result<Vec<LibPage>, String> {
+    let r = vx::guard(|| -> Result<Vec<LibPage>, String> {
+        let d = oxidize_pdf::parser::PdfReader::open_document(path).map_err(|e| format!("open: {e}"))?;
+        let n = d.page_count().map_err(|e| format!("page_count: {e}"))?;
+        let mut out = Vec::new();
+        for i in 0..n {
+            let p = d.get_page(i).map_err(|e| format!("get_page({i}): {e}"))?;
+            let content = p
+                .content_streams_with_document(&d)
+                .map_err(|e| format!("content: {e}"))
+                .and_then(|ss| {
+                    let mut all = Vec::new();
+                    for (k, s) in ss.iter().enumerate() {
+                        if k > 0 {
+                            all.push(b'\n');
+                        }
+                        all.extend_from_slice(s);
+                    }
+                    parse_content(&all)
+                })
+                .map(|ops| ops.into_iter().map(|op| Op { operator: op.operator, operands: op.operands.iter().map(norm_num).collect() }).collect());
+            let mut keys = BTreeSet::new();
+            if let Some(res) = p.get_resources() {
+                for (cat, v) in res.0.iter() {
+                    let v = match v {
+                        oxidize_pdf::parser::objects::PdfObject::Reference(n, g) => d.get_object(*n, *g).ok(),
+                        other => Some(other.clone()),
+                    };
+                    if let Some(dd) = v.as_ref().and_then(|v| v.as_dict()) {
+                        for k in dd.0.keys() {
+                            keys.insert((cat.0.clone(), k.0.clone()));
+                        }
+                    }
+                }
+            }
+            out.push(LibPage { media: p.media_box, crop: p.crop_box, rotate: p.rotation as i64, content, res_keys: keys });
+        }
+        Ok(out)
+    });
+    match r {
+        Ok(x) => x,
+        Err(p) => Err(format!("panic: {p}")),
+    }
+}
+
+fn res_keys_of(d: &PageDesc) -> BTreeSet<(String, String)> {
+    let mut s = BTreeSet::new();
+    if let Some(rd) = d.resources.as_dict() {
+        for (cat, v) in rd.iter() {
+            if let Obj::Dict(dd) = v {
+                for (k, _) in dd.iter() {
+                    s.insert((String::from_utf8_lossy(cat).to_string(), String::from_utf8_lossy(k).to_string()));
+                }
+            }
+        }
+    }
+    s
+}
+
+/// The library's reader must see a file the way the reference reader does.
+fn lib_vs_ref(refp: &[PageDesc], libp: &[LibPage]) -> Vec<String> {
+    let mut v = Vec::new();
+    if refp.len() != libp.len() {
+        v.push(format!("page count: reference {} library {}", refp.len(), libp.len()));
+        return v;
+    }
+    for (i, (r, l)) in refp.iter().zip(libp).enumerate() {
+        match &r.media {
+            Some(m) if rect_eq(m, &l.media) => {}
+            m => v.push(format!("page {i} MediaBox: reference {m:?} library {:?}", l.media)),
+        }
+        match (&r.crop, &l.crop) {
+            (None, None) => {}
+            (Some(a), Some(b)) if rect_eq(a, b) => {}
+            (a, b) => v.push(format!("page {i} CropBox: reference {a:?} library {b:?}")),
+        }
+        if r.rotate != l.rotate {
+            v.push(format!("page {i} Rotate: reference {} library {}", r.rotate, l.rotate));
+        }
+        match (&r.content, &l.content) {
+            (Ok(a), Ok(b)) if ops_eq(a, b) => {}
+            (a, b) => v.push(format!("page {i} content: reference {:?} ops, library {:?} ops", a.as_ref().map(|x| x.len()), b.as_ref().map(|x| x.len()))),
+        }
+        let rk = res_keys_of(r);
+        if rk != l.res_keys {
+            v.push(format!("page {i} resource names: reference {rk:?} library {:?}", l.res_keys));
+        }
+    }
+    v
+}
+
+// ------------------------------------------------------------------ sources
+
+struct Source {
+    name: String,
+    path: PathBuf,
+    pages: Vec<PageDesc>,
+}
+impl Source {
+    fn n(&self) -> usize {
+        self.pages.len()
+    }
+}
+
+fn rect_obj(r: [f64; 4]) -> Obj {
+    Obj::Array(r.iter().map(|x| if x.fract() == 0.0 { Obj::Int(*x as i64) } else { Obj::Real(*x) }).collect())
+}
+
+/// refpdf-built n-page document (n >= 2). Pages 0..n-2 hang under an intermediate /Pages
+/// node that carries MediaBox (non-zero origin), CropBox, Resources (indirect) and Rotate;
+/// the last page hangs under the root with everything of its own.
+fn crafted_source(n: usize, rots: &[i64], modern: bool) -> Vec<u8> {
+    assert!(n >= 2 && rots.len() == n);
+    let font = |base: &str| Obj::dict(vec![("Type", Obj::name("Font")), ("Subtype", Obj::name("Type1")), ("BaseFont", Obj::name(base)), ("Encoding", Obj::name("WinAnsiEncoding"))]);
+    let mut objs: Vec<(u32, Obj)> = Vec::new();
+    let page_num = |i: usize| 30 + 3 * i as u32;
+    objs.push((1, Obj::dict(vec![("Type", Obj::name("Catalog")), ("Pages", Obj::Ref(2, 0))])));
+    objs.push((2, Obj::dict(vec![("Type", Obj::name("Pages")), ("Kids", Obj::Array(vec![Obj::Ref(10, 0), Obj::Ref(page_num(n - 1), 0)])), ("Count", Obj::Int(n as i64))])));
+    objs.push((
+        10,
+        Obj::dict(vec![
+            ("Type", Obj::name("Pages")),
+            ("Parent", Obj::Ref(2, 0)),
+            ("Kids", Obj::Array((0..n - 1).map(|i| Obj::Ref(page_num(i), 0)).collect())),
+            ("Count", Obj::Int(n as i64 - 1)),
+            ("MediaBox", rect_obj([100.0, 200.0, 400.0, 600.0])),
+            ("CropBox", rect_obj([110.0, 210.0, 390.0, 590.0])),
+            ("Resources", Obj::Ref(22, 0)),
+            ("Rotate", Obj::Int(rots[0])),
+        ]),
+    ));
+    objs.push((20, font("Helvetica")));
+    objs.push((
+        21,
+        Obj::stream(
+            vec![("Type", Obj::name("XObject")), ("Subtype", Obj::name("Image")), ("Width", Obj::Int(2)), ("Height", Obj::Int(2)), ("ColorSpace", Obj::name("DeviceRGB")), ("BitsPerComponent", Obj::Int(8)), ("SMask", Obj::Ref(23, 0))],
+            vec![255, 0, 0, 0, 255, 0, 0, 0, 255, 9, 9, 9],
+        ),
+    ));
+    objs.push((22, Obj::dict(vec![("Font", Obj::dict(vec![("F1", Obj::Ref(20, 0))])), ("XObject", Obj::dict(vec![("Im1", Obj::Ref(21, 0))]))])));
+    objs.push((
+        23,
+        Obj::stream(
+            vec![("Type", Obj::name("XObject")), ("Subtype", Obj::name("Image")), ("Width", Obj::Int(2)), ("Height", Obj::Int(2)), ("ColorSpace", Obj::name("DeviceGray")), ("BitsPerComponent", Obj::Int(8)), ("Filter", Obj::name("FlateDecode"))],
+            refpdf::filters::flate_encode(&[0, 85, 170, 255]),
+        ),
+    ));
+    for i in 0..n {
+        let pn = page_num(i);
+        let mut d: Vec<(&str, Obj)> = vec![("Type", Obj::name("Page"))];
+        if i == 0 {
+            // inherits everything, single uncompressed stream, font + image
+            d.push(("Parent", Obj::Ref(10, 0)));
+            d.push(("Contents", Obj::Ref(pn + 1, 0)));
+            objs.push((pn + 1, Obj::stream(vec![], format!("BT /F1 12 Tf 120 300 Td (Page {i} one) Tj ET q 50 0 0 50 150 250 cm /Im1 Do Q").into_bytes())));
+        } else if i < n - 1 {
+            // own real-valued MediaBox and CropBox, negative/large Rotate, content = array of two streams
+            d.push(("Parent", Obj::Ref(10, 0)));
+            d.push(("MediaBox", rect_obj([10.0, 20.0, 310.5, 420.0])));
+            d.push(("CropBox", rect_obj([15.0, 25.0, 300.0, 400.0])));
+            d.push(("Rotate", Obj::Int(rots[i])));
+            d.push(("Contents", Obj::Array(vec![Obj::Ref(pn + 1, 0), Obj::Ref(pn + 2, 0)])));
+            objs.push((pn + 1, Obj::stream(vec![("Filter", Obj::name("FlateDecode"))], refpdf::filters::flate_encode(format!("q 1 0 0 RG 20 30 {} 100 re S", 100 + i).as_bytes()))));
+            objs.push((pn + 2, Obj::stream(vec![], format!("Q BT /F1 9 Tf 30 40 Td (page {i} [two] \\(x\\)) Tj ET").into_bytes())));
+        } else {
+            // directly under the root: zero-origin MediaBox, TrimBox, inline resources
+            d.push(("Parent", Obj::Ref(2, 0)));
+            d.push(("MediaBox", rect_obj([0.0, 0.0, 200.0, 300.0])));
+            d.push(("TrimBox", rect_obj([5.0, 5.0, 195.0, 295.0])));
+            d.push(("Rotate", Obj::Int(rots[i])));
+            d.push(("Resources", Obj::dict(vec![("Font", Obj::dict(vec![("F2", font("Times-Roman")), ("Helvetica", font("Courier"))])), ("ProcSet", Obj::Array(vec![Obj::name("PDF"), Obj::name("Text")]))])));
+            d.push(("Contents", Obj::Ref(pn + 1, 0)));
+            objs.push((pn + 1, Obj::stream(vec![("Filter", Obj::name("FlateDecode"))], refpdf::filters::flate_encode(format!("BT /F2 12 Tf 20 30 Td <4c617374> Tj ({i}) ' /Helvetica 8 Tf (courier under the key Helvetica) Tj ET 0.5 g 1 1 10 10 re f").as_bytes()))));
+        }
+        objs.push((pn, Obj::dict(d)));
+    }
+    let mut r = Revision::new(if modern { XrefForm::Stream } else { XrefForm::Table });
+    for (num, o) in objs {
+        if modern && !matches!(o, Obj::Stream(_)) {
+            r.in_objstm.insert(num);
+        }
+        r.add(num, o);
+    }
+    r.xref_predictor = modern;
+    let mut fb = FileBuilder::new(1);
+    fb.revisions.push(r);
+    fb.build().bytes
+}
+
+fn library_source(kind: usize) -> Result<Vec<u8>, String> {
+    use oxidize_pdf::graphics::Image;
+    use oxidize_pdf::text::Font;
+    use oxidize_pdf::{Document, Page};
+    let r = vx::guard(|| -> Result<Vec<u8>, String> {
+        let mut doc = Document::new();
+        doc.set_title("C16 library source");
+        let mut p1 = Page::a4();
+        p1.text().set_font(Font::Helvetica, 12.0).at(50.0, 800.0).write("library page one").map_err(|e| e.to_string())?;
+        doc.add_page(p1);
+        let mut p2 = Page::new(300.0, 400.0);
+        p2.graphics().rectangle(20.0, 30.0, 100.0, 50.0).stroke();
+        let img = Image::from_raw_data(vec![255, 0, 0, 0, 255, 0, 0, 0, 255, 9, 9, 9], 2, 2, oxidize_pdf::graphics::ColorSpace::DeviceRGB, 8);
+        p2.add_image("Im1", img);
+        p2.draw_image("Im1", 10.0, 10.0, 50.0, 50.0).map_err(|e| e.to_string())?;
+        p2.set_rotation(270);
+        doc.add_page(p2);
+        let mut p3 = Page::letter();
+        p3.set_rotation(90);
+        p3.text().set_font(Font::TimesRoman, 10.0).at(72.0, 72.0).write("library page three").map_err(|e| e.to_string())?;
+        doc.add_page(p3);
+        let cfg = oxidize_pdf::writer::WriterConfig { use_xref_streams: kind == 1, use_object_streams: false, pdf_version: if kind == 1 { "1.5" } else { "1.7" }.to_string(), compress_streams: true, incremental_update: false };
+        doc.to_bytes_with_config(cfg).map_err(|e| e.to_string())
+    });
+    match r {
+        Ok(x) => x,
+        Err(p) => Err(format!("panic: {p}")),
+    }
+}
+
+// ------------------------------------------------------------------ helpers for the bodies
+
+struct Env {
+    dir: PathBuf,
+    sources: Vec<Source>,
+}
+
+fn out_name(env: &Env, c: &Ctx, tag: &str) -> String {
+    let seq = FILE_SEQ.fetch_add(1, Ordering::Relaxed);
+    format!("{}/{}-{:016x}-{}", env.dir.display(), tag, vx::h64(&c.choices()), seq)
+}
+
+/// Verify one output file against the expected (source page, added angle) list. Returns an
+/// observation hash (page count + failure keys).
+fn check_output(c: &mut Ctx, what: &str, path: &Path, expect: &[(&PageDesc, i64)]) -> u64 {
+    let mut keys: Vec<String> = Vec::new();
+    let bytes = match std::fs::read(path) {
+        Ok(b) => b,
+        Err(e) => {
+            c.fail("C16/output-file-missing", format!("{what}: {}: {e}", path.display()));
+            return 1;
+        }
+    };
+    let got = match read_pages(&bytes) {
+        Ok(g) => g,
+        Err(e) => {
+            c.fail("C16/output-unreadable-by-reference-reader", format!("{what}: {e}"));
+            return 2;
+        }
+    };
+    if got.len() != expect.len() {
+        c.fail("C16/page-count-differs", format!("{what}: expected {} pages, output has {}", expect.len(), got.len()));
+        keys.push("count".into());
+    }
+    for (k, ((e, angle), g)) in expect.iter().zip(got.iter()).enumerate() {
+        for (key, detail) in compare_page(e, *angle, g) {
+            c.fail(key.clone(), format!("{what}: output page {k}: {detail}"));
+            keys.push(key);
+        }
+    }
+    match lib_read(path) {
+        Ok(lp) => {
+            for d in lib_vs_ref(&got, &lp) {
+                c.fail("C16/library-reader-disagrees-with-reference-reader-on-output", format!("{what}: {d}"));
+                keys.push("libreader".into());
+            }
+        }
+        Err(e) => {
+            c.fail("C16/output-unreadable-by-library-reader", format!("{what}: {e}"));
+            keys.push("libread".into());
+        }
+    }
+    let _ = std::fs::remove_file(path);
+    keys.sort();
+    keys.dedup();
+    vx::h64(&(got.len(), keys))
+}
+
+fn op_failed(c: &mut Ctx, what: &str, e: String) {
+    let key = if e.starts_with("panic") { "C16/operation-panicked" } else { "C16/operation-failed" };
+    c.fail(key, format!("{what}: {e}"));
+}
+
+fn flat<T, E: std::fmt::Display>(r: Result<Result<T, E>, String>) -> Result<T, String> {
+    match r {
+        Ok(Ok(v)) => Ok(v),
+        Ok(Err(e)) => Err(e.to_string()),
+        Err(p) => Err(format!("panic: {p}")),
+    }
+}
+
+/// every sequence over 0..n of length 1..=maxlen, in a fixed order
+fn sequences(n: usize, maxlen: usize) -> Vec<Vec<usize>> {
+    let mut all: Vec<Vec<usize>> = Vec::new();
+    let mut layer: Vec<Vec<usize>> = vec![vec![]];
+    for _ in 0..maxlen {
+        let mut next = Vec::new();
+        for s in &layer {
+            for i in 0..n {
+                let mut t = s.clone();
+                t.push(i);
+                next.push(t);
+            }
+        }
+        all.extend(next.iter().cloned());
+        layer = next;
+    }
+    all
+}
+
+fn subsets(n: usize) -> Vec<Vec<usize>> {
+    (0..(1usize << n)).map(|m| (0..n).filter(|i| m >> i & 1 == 1).collect()).collect()
+}
+
+/// PageRange menu: (range, expected indices, label)
+fn range_menu(n: usize, list_len: usize) -> Vec<(PageRange, Vec<usize>, String)> {
+    let mut m: Vec<(PageRange, Vec<usize>, String)> = vec![(PageRange::All, (0..n).collect(), "All".into())];
+    for i in 0..n {
+        m.push((PageRange::Single(i), vec![i], format!("Single({i})")));
+    }
+    for i in 0..n {
+        for j in i..n {
+            m.push((PageRange::Range(i, j), (i..=j).collect(), format!("Range({i},{j})")));
+        }
+    }
+    for s in sequences(n, list_len) {
+        m.push((PageRange::List(s.clone()), s.clone(), format!("List({s:?})")));
+    }
+    m
+}
+
+fn is_identity(seq: &[usize], n: usize) -> bool {
+    seq.len() == n && seq.iter().enumerate().all(|(i, &p)| i == p)
+}
+
+// ------------------------------------------------------------------ run
+
+pub fn run(rep: &mut Report) {
+    let thorough = rep.tier.is_thorough();
+    rep.rule(
+        "one case = (source file(s), operation, parameters); every case runs the public path-based operation on real files and \
+         re-reads every output with the reference reader and the library reader; non-trivial = the expected output is not a plain \
+         in-order copy of one whole source (a selection, permutation, duplication, rotation by a non-zero angle, a split into >1 \
+         file, or a merge); distinct = distinct (operation, parameter, source) tuple",
+    );
+    rep.assume("reference reader refpdf (page tree with inheritance, filters, content tokeniser) gives the meaning of source and output files");
+    rep.assume("move(from,to) means: the moved page ends at index `to`, all other pages keep their relative order; SplitAt(points) with sorted interior points p1<p2<.. cuts before each point");
+    rep.assume("content is compared after replacing each resource-name operand by the resource it names, so a resource key renamed consistently in /Resources and in the content (the library does this when a source font key collides with a font the writer injects) is not a difference");
+    rep.assume("extra /Resources entries in the output under names the source does not use are tolerated (counted in coverage.extra_resource_entries_tolerated); /ProcSet may be dropped (obsolete, ISO 32000-1 14.2)");
+    rep.assume("invalid parameters (ChunkSize(0), out-of-range indices, empty page order) are outside the property and not enumerated");
+
+    let dir = vx::verif_root().join(".scratch").join(format!("C16-{}", std::process::id()));
+    let _ = std::fs::remove_dir_all(&dir);
+    if let Err(e) = std::fs::create_dir_all(&dir) {
+        rep.machinery_error(format!("cannot create scratch dir {}: {e}", dir.display()));
+        return;
+    }
+
+    // ---- sources
+    let mut raw: Vec<(String, Vec<u8>)> = vec![
+        ("crafted3-classic[90i,-90,450]".into(), crafted_source(3, &[90, -90, 450], false)),
+        ("crafted3-objstm[0i,450,-90]".into(), crafted_source(3, &[0, 450, -90], true)),
+    ];
+    for k in 0..2 {
+        match library_source(k) {
+            Ok(b) => raw.push((format!("library3-{}", if k == 0 { "classic" } else { "xrefstream" }), b)),
+            Err(e) => rep.machinery_error(format!("cannot author library source {k}: {e}")),
+        }
+    }
+    if thorough {
+        raw.push(("crafted4-classic[-90i,0,450,90]".into(), crafted_source(4, &[-90, 0, 450, 90], false)));
+        raw.push(("crafted2-objstm[450i,-90]".into(), crafted_source(2, &[450, -90], true)));
+    }
+    let mut sources: Vec<Source> = Vec::new();
+    let mut source_notes = Vec::new();
+    for (i, (name, bytes)) in raw.iter().enumerate() {
+        let issues = refpdf::file::validate(bytes);
+        if name.starts_with("crafted") && !issues.is_empty() {
+            rep.machinery_error(format!("crafted source {name} does not pass the strict validator: {issues:?}"));
+            continue;
+        }
+        let path = dir.join(format!("src{i}.pdf"));
+        if let Err(e) = std::fs::write(&path, bytes) {
+            rep.machinery_error(format!("cannot write {}: {e}", path.display()));
+            continue;
+        }
+        let pages = match read_pages(bytes) {
+            Ok(p) => p,
+            Err(e) => {
+                rep.machinery_error(format!("reference reader cannot read source {name}: {e}"));
+                continue;
+            }
+        };
+        if pages.iter().any(|p| p.content.is_err() || p.media.is_none()) {
+            rep.machinery_error(format!("source {name}: page without MediaBox or with untokenisable content"));
+            continue;
+        }
+        // the library must read the source the way the reference reader does, otherwise the
+        // operations are judged on a misread input: such a source is excluded, and reported
+        match lib_read(&path) {
+            Ok(lp) => {
+                let d = lib_vs_ref(&pages, &lp);
+                if !d.is_empty() {
+                    source_notes.push(json!({"source": name, "excluded": true, "library_reader_differs": d}));
+                    continue;
+                }
+            }
+            Err(e) => {
+                source_notes.push(json!({"source": name, "excluded": true, "library_reader_error": e}));
+                continue;
+            }
+        }
+        source_notes.push(json!({"source": name, "pages": pages.len(), "bytes": bytes.len(),
+            "boxes": pages.iter().map(|p| format!("media {:?} crop {:?} rotate {}", p.media, p.crop, p.rotate)).collect::<Vec<_>>()}));
+        sources.push(Source { name: name.clone(), path, pages });
+    }
+    rep.note("sources", json!(source_notes));
+    if sources.len() < 2 {
+        rep.machinery_error("fewer than two usable source files".into());
+        let _ = std::fs::remove_dir_all(&dir);
+        return;
+    }
+    let env = Env { dir: dir.clone(), sources };
+    let env = &env;
+    let list_len = if thorough { 3 } else { 2 };
+
+    // ---- split
+    rep.explore("split", Explore::full(), |c: &mut Ctx| {
+        let si = c.choose("source", env.sources.len());
+        let s = &env.sources[si];
+        let n = s.n();
+        let mode = c.choose("mode", 4);
+        let base = out_name(env, c, "split");
+        // (mode value, expected page indices per output file, label)
+        let (sm, parts, label): (SplitMode, Vec<Vec<usize>>, String) = match mode {
+            0 => (SplitMode::SinglePages, (0..n).map(|i| vec![i]).collect(), "SinglePages".into()),
+            1 => {
+                let k = 1 + c.choose("chunk", n + 1);
+                (SplitMode::ChunkSize(k), (0..n).collect::<Vec<_>>().chunks(k).map(|x| x.to_vec()).collect(), format!("ChunkSize({k})"))
+            }
+            2 => {
+                let mask = c.choose("points", 1 << (n - 1));
+                let pts: Vec<usize> = (1..n).filter(|p| mask >> (p - 1) & 1 == 1).collect();
+                let mut parts = Vec::new();
+                let mut start = 0;
+                for &p in &pts {
+                    parts.push((start..p).collect());
+                    start = p;
+                }
+                parts.push((start..n).collect());
+                (SplitMode::SplitAt(pts.clone()), parts, format!("SplitAt({pts:?})"))
+            }
+            _ => {
+                let menu = range_menu(n, list_len);
+                let nr = 1 + c.choose("nranges", 2);
+                let mut rs = Vec::new();
+                let mut parts = Vec::new();
+                let mut labels = Vec::new();
+                for k in 0..nr {
+                    // second range from a smaller menu in the quick tier
+                    let lim = if k == 0 || thorough { menu.len() } else { menu.len().min(1 + n + n * (n + 1) / 2) };
+                    let (r, idx, l) = &menu[c.choose("range", lim)];
+                    rs.push(r.clone());
+                    parts.push(idx.clone());
+                    labels.push(l.clone());
+                }
+                (SplitMode::Ranges(rs), parts, format!("Ranges({labels:?})"))
+            }
+        };
+        let what = format!("split {} {}", s.name, label);
+        c.input(vx::h64(&what));
+        if parts.len() > 1 || !is_identity(&parts[0], n) {
+            c.nontrivial();
+        }
+        let pattern = format!("{base}_{{n}}.pdf");
+        let res = if mode == 0 {
+            flat(vx::guard(|| ops::split_into_pages(&s.path, &pattern)))
+        } else {
+            flat(vx::guard(|| ops::split_pdf(&s.path, SplitOptions { mode: sm, output_pattern: pattern.clone(), preserve_metadata: true, optimize: false })))
+        };
+        let mut oh = 0u64;
+        match res {
+            Err(e) => op_failed(c, &what, e),
+            Ok(files) => {
+                let want: Vec<PathBuf> = (0..parts.len()).map(|i| PathBuf::from(format!("{base}_{}.pdf", i + 1))).collect();
+                if files != want {
+                    c.fail("C16/split-output-files-differ", format!("{what}: returned {files:?}, expected {want:?}"));
+                }
+                for (k, p) in want.iter().enumerate() {
+                    let exp: Vec<(&PageDesc, i64)> = parts[k].iter().map(|&i| (&s.pages[i], 0)).collect();
+                    oh = vx::hmix(oh, check_output(c, &format!("{what} file {}", k + 1), p, &exp));
+                }
+                for f in files {
+                    let _ = std::fs::remove_file(f);
+                }
+            }
+        }
+        c.outcome(oh);
+        c.sample(json!({"op": what, "expected_files": parts}));
+    });
+
+    // ---- extract
+    rep.explore("extract", Explore::full(), |c: &mut Ctx| {
+        let si = c.choose("source", env.sources.len());
+        let s = &env.sources[si];
+        let n = s.n();
+        let kind = c.choose("api", 3);
+        let out = PathBuf::from(format!("{}.pdf", out_name(env, c, "extract")));
+        let (what, idx, res): (String, Vec<usize>, Result<(), String>) = match kind {
+            0 => {
+                let seqs = sequences(n, n);
+                let seq = seqs[c.choose("pages", seqs.len())].clone();
+                (format!("extract_pages_to_file {} {seq:?}", s.name), seq.clone(), flat(vx::guard(|| ops::extract_pages_to_file(&s.path, &seq, &out))))
+            }
+            1 => {
+                let i = c.choose("page", n);
+                (format!("extract_page_to_file {} {i}", s.name), vec![i], flat(vx::guard(|| ops::extract_page_to_file(&s.path, i, &out))))
+            }
+            _ => {
+                let menu = range_menu(n, list_len);
+                let (r, idx, l) = &menu[c.choose("range", menu.len())];
+                (format!("extract_page_range_to_file {} {l}", s.name), idx.clone(), flat(vx::guard(|| ops::extract_page_range_to_file(&s.path, r, &out))))
+            }
+        };
+        c.input(vx::h64(&what));
+        if !is_identity(&idx, n) {
+            c.nontrivial();
+        }
+        match res {
+            Err(e) => op_failed(c, &what, e),
+            Ok(()) => {
+                let exp: Vec<(&PageDesc, i64)> = idx.iter().map(|&i| (&s.pages[i], 0)).collect();
+                let oh = check_output(c, &what, &out, &exp);
+                c.outcome(oh);
+            }
+        }
+        c.sample(json!({"op": what, "expected_pages": idx}));
+    });
+
+    // ---- reorder / reverse / swap / move
+    rep.explore("reorder", Explore::full(), |c: &mut Ctx| {
+        let si = c.choose("source", env.sources.len());
+        let s = &env.sources[si];
+        let n = s.n();
+        let kind = c.choose("api", 4);
+        let out = PathBuf::from(format!("{}.pdf", out_name(env, c, "reorder")));
+        let (what, idx, res): (String, Vec<usize>, Result<(), String>) = match kind {
+            0 => {
+                let seqs = sequences(n, n);
+                let seq = seqs[c.choose("order", seqs.len())].clone();
+                (format!("reorder_pdf_pages {} {seq:?}", s.name), seq.clone(), flat(vx::guard(|| ops::reorder_pdf_pages(&s.path, &out, seq.clone()))))
+            }
+            1 => (format!("reverse_pdf_pages {}", s.name), (0..n).rev().collect(), flat(vx::guard(|| ops::reverse_pdf_pages(&s.path, &out)))),
+            2 => {
+                let i = c.choose("i", n);
+                let j = c.choose("j", n);
+                let mut idx: Vec<usize> = (0..n).collect();
+                idx.swap(i, j);
+                (format!("swap_pdf_pages {} {i} {j}", s.name), idx, flat(vx::guard(|| ops::swap_pdf_pages(&s.path, &out, i, j))))
+            }
+            _ => {
+                let i = c.choose("from", n);
+                let j = c.choose("to", n);
+                // reference: the moved page ends at index j, the others keep their order
+                let rest: Vec<usize> = (0..n).filter(|&p| p != i).collect();
+                let mut idx = Vec::new();
+                let mut it = rest.into_iter();
+                for pos in 0..n {
+                    if pos == j {
+                        idx.push(i);
+                    } else {
+                        idx.push(it.next().unwrap());
+                    }
+                }
+                (format!("move_pdf_page {} {i}->{j}", s.name), idx, flat(vx::guard(|| ops::move_pdf_page(&s.path, &out, i, j))))
+            }
+        };
+        c.input(vx::h64(&what));
+        if !is_identity(&idx, n) {
+            c.nontrivial();
+        }
+        match res {
+            Err(e) => op_failed(c, &what, e),
+            Ok(()) => {
+                let exp: Vec<(&PageDesc, i64)> = idx.iter().map(|&i| (&s.pages[i], 0)).collect();
+                let oh = check_output(c, &what, &out, &exp);
+                c.outcome(oh);
+            }
+        }
+        c.sample(json!({"op": what, "expected_pages": idx}));
+    });
+
+    // ---- rotate
+    const ANGLES: [(RotationAngle, i64); 4] = [(RotationAngle::None, 0), (RotationAngle::Clockwise90, 90), (RotationAngle::Rotate180, 180), (RotationAngle::Clockwise270, 270)];
+    const DEGREES: [i32; 9] = [-90, 450, 360, -180, -270, 630, 720, -360, 810];
+    rep.explore("rotate", Explore::full(), |c: &mut Ctx| {
+        let si = c.choose("source", env.sources.len());
+        let s = &env.sources[si];
+        let n = s.n();
+        let ai = c.choose("angle", ANGLES.len() + DEGREES.len());
+        let (angle, deg, alabel) = if ai < ANGLES.len() {
+            (ANGLES[ai].0, ANGLES[ai].1, format!("{:?}", ANGLES[ai].0))
+        } else {
+            let d = DEGREES[ai - ANGLES.len()];
+            match vx::guard(|| RotationAngle::from_degrees(d)) {
+                Ok(Ok(a)) => {
+                    if a.to_degrees() as i64 != (d as i64).rem_euclid(360) {
+                        c.fail("C16/from-degrees-wrong", format!("from_degrees({d}) = {a:?}"));
+                    }
+                    (a, (d as i64).rem_euclid(360), format!("from_degrees({d})"))
+                }
+                other => {
+                    c.fail("C16/from-degrees-rejects-multiple-of-90", format!("from_degrees({d}) = {other:?}"));
+                    return;
+                }
+            }
+        };
+        // page ranges: every subset as a List (incl. the empty one), All, Single, Range, and the rotate_all_pages shortcut
+        let subs = subsets(n);
+        let mut menu: Vec<(Option<PageRange>, Vec<usize>, String)> = subs.iter().map(|s| (Some(PageRange::List(s.clone())), s.clone(), format!("List({s:?})"))).collect();
+        for (r, idx, l) in range_menu(n, 0) {
+            menu.push((Some(r), idx, l));
+        }
+        menu.push((None, (0..n).collect(), "rotate_all_pages".into()));
+        let (range, rotated, rlabel) = &menu[c.choose("pages", menu.len())];
+        let what = format!("rotate {} {alabel} {rlabel}", s.name);
+        c.input(vx::h64(&what));
+        if deg != 0 && !rotated.is_empty() {
+            c.nontrivial();
+        }
+        let out = PathBuf::from(format!("{}.pdf", out_name(env, c, "rotate")));
+        let res = match range {
+            Some(r) => flat(vx::guard(|| ops::rotate_pdf_pages(&s.path, &out, RotateOptions { pages: r.clone(), angle, preserve_page_size: false }))),
+            None => flat(vx::guard(|| ops::rotate_all_pages(&s.path, &out, angle))),
+        };
+        match res {
+            Err(e) => op_failed(c, &what, e),
+            Ok(()) => {
+                let exp: Vec<(&PageDesc, i64)> = (0..n).map(|i| (&s.pages[i], if rotated.contains(&i) { deg } else { 0 })).collect();
+                let oh = check_output(c, &what, &out, &exp);
+                c.outcome(oh);
+            }
+        }
+        c.sample(json!({"op": what, "rotated": rotated, "degrees": deg}));
+    });
+
+    // ---- thorough: every /Rotate assignment over {0, 90, -90, 450}^3 x every enum angle x every page subset
+    if thorough {
+        const ROTS: [i64; 4] = [0, 90, -90, 450];
+        let mut rot_sources: Vec<Source> = Vec::new();
+        for a in 0..64usize {
+            let rots = [ROTS[a % 4], ROTS[a / 4 % 4], ROTS[a / 16]];
+            let bytes = crafted_source(3, &rots, a % 2 == 1);
+            let path = dir.join(format!("rot{a}.pdf"));
+            match (std::fs::write(&path, &bytes), read_pages(&bytes)) {
+                (Ok(()), Ok(pages)) => rot_sources.push(Source { name: format!("crafted3{rots:?}"), path, pages }),
+                (w, r) => rep.machinery_error(format!("rotation source {rots:?}: {:?} {:?}", w.err(), r.err())),
+            }
+        }
+        let rot_sources = &rot_sources;
+        rep.explore("rotate-assignments", Explore::full(), |c: &mut Ctx| {
+            let s = &rot_sources[c.choose("source", rot_sources.len())];
+            let (angle, deg) = ANGLES[c.choose("angle", ANGLES.len())];
+            let subs = subsets(3);
+            let rotated = &subs[c.choose("pages", subs.len())];
+            let what = format!("rotate {} {angle:?} List({rotated:?})", s.name);
+            c.input(vx::h64(&what));
+            if deg != 0 && !rotated.is_empty() {
+                c.nontrivial();
+            }
+            let out = PathBuf::from(format!("{}.pdf", out_name(env, c, "rotall")));
+            match flat(vx::guard(|| ops::rotate_pdf_pages(&s.path, &out, RotateOptions { pages: PageRange::List(rotated.clone()), angle, preserve_page_size: false }))) {
+                Err(e) => op_failed(c, &what, e),
+                Ok(()) => {
+                    let exp: Vec<(&PageDesc, i64)> = (0..3).map(|i| (&s.pages[i], if rotated.contains(&i) { deg } else { 0 })).collect();
+                    let oh = check_output(c, &what, &out, &exp);
+                    c.outcome(oh);
+                }
+            }
+            c.sample(json!({"op": what}));
+        });
+    }
+
+    // ---- merge: every ordered pair x page-range menu per input (third input in the thorough tier)
+    rep.explore("merge", Explore::full(), |c: &mut Ctx| {
+        let ninputs = if thorough { 2 + c.choose("inputs", 2) } else { 2 };
+        let mut inputs = Vec::new();
+        let mut exp: Vec<(&PageDesc, i64)> = Vec::new();
+        let mut labels = Vec::new();
+        let mut all_plain = true;
+        for k in 0..ninputs {
+            let si = c.choose("source", env.sources.len());
+            let s = &env.sources[si];
+            let n = s.n();
+            // None (= all pages) plus a small menu: last page, a range, a reversed list, a duplicate
+            let mut menu: Vec<(Option<PageRange>, Vec<usize>, String)> = vec![(None, (0..n).collect(), "all".into())];
+            if k < 2 {
+                menu.push((Some(PageRange::Single(n - 1)), vec![n - 1], format!("Single({})", n - 1)));
+                menu.push((Some(PageRange::Range(0, n - 2)), (0..n - 1).collect(), format!("Range(0,{})", n - 2)));
+                menu.push((Some(PageRange::List(vec![n - 1, 0, 0])), vec![n - 1, 0, 0], format!("List([{},0,0])", n - 1)));
+            }
+            let (r, idx, l) = &menu[c.choose("range", menu.len())];
+            if r.is_some() {
+                all_plain = false;
+            }
+            inputs.push((s.path.clone(), r.clone()));
+            for &i in idx {
+                exp.push((&s.pages[i], 0));
+            }
+            labels.push(format!("{}:{l}", s.name));
+        }
+        let what = format!("merge {labels:?}");
+        c.input(vx::h64(&what));
+        c.nontrivial();
+        let out = PathBuf::from(format!("{}.pdf", out_name(env, c, "merge")));
+        let res = if all_plain {
+            let paths: Vec<PathBuf> = inputs.iter().map(|(p, _)| p.clone()).collect();
+            flat(vx::guard(|| ops::merge_pdf_files(&paths, &out)))
+        } else {
+            flat(vx::guard(|| {
+                let ins: Vec<MergeInput> = inputs.iter().map(|(p, r)| match r { Some(r) => MergeInput::with_pages(p.clone(), r.clone()), None => MergeInput::new(p.clone()) }).collect();
+                ops::merge_pdfs(ins, &out, MergeOptions::default())
+            }))
+        };
+        match res {
+            Err(e) => op_failed(c, &what, e),
+            Ok(()) => {
+                let oh = check_output(c, &what, &out, &exp);
+                c.outcome(oh);
+            }
+        }
+        c.sample(json!({"op": what, "expected_page_count": exp.len()}));
+    });
+
+    // ---- merge(split(d)) gives back d
+    rep.explore("merge-of-split", Explore::full(), |c: &mut Ctx| {
+        let si = c.choose("source", env.sources.len());
+        let s = &env.sources[si];
+        let n = s.n();
+        let mode = c.choose("mode", 3);
+        let (sm, label, nparts): (SplitMode, String, usize) = match mode {
+            0 => (SplitMode::SinglePages, "SinglePages".into(), n),
+            1 => {
+                let k = 1 + c.choose("chunk", n + 1);
+                (SplitMode::ChunkSize(k), format!("ChunkSize({k})"), (n + k - 1) / k)
+            }
+            _ => {
+                let mask = c.choose("points", 1 << (n - 1));
+                let pts: Vec<usize> = (1..n).filter(|p| mask >> (p - 1) & 1 == 1).collect();
+                let np = pts.len() + 1;
+                (SplitMode::SplitAt(pts.clone()), format!("SplitAt({pts:?})"), np)
+            }
+        };
+        let what = format!("merge(split {} {label})", s.name);
+        c.input(vx::h64(&what));
+        if nparts > 1 {
+            c.nontrivial();
+        }
+        let base = out_name(env, c, "ms");
+        let pattern = format!("{base}_{{n}}.pdf");
+        let files = match flat(vx::guard(|| ops::split_pdf(&s.path, SplitOptions { mode: sm, output_pattern: pattern, preserve_metadata: true, optimize: false }))) {
+            Ok(f) => f,
+            Err(e) => {
+                op_failed(c, &what, e);
+                return;
+            }
+        };
+        if files.len() != nparts {
+            c.fail("C16/split-output-files-differ", format!("{what}: {} files, expected {nparts}", files.len()));
+        }
+        let out = PathBuf::from(format!("{base}_merged.pdf"));
+        let res = flat(vx::guard(|| ops::merge_pdf_files(&files, &out)));
+        match res {
+            Err(e) => op_failed(c, &what, e),
+            Ok(()) => {
+                let exp: Vec<(&PageDesc, i64)> = s.pages.iter().map(|p| (p, 0)).collect();
+                let oh = check_output(c, &what, &out, &exp);
+                c.outcome(oh);
+            }
+        }
+        for f in files {
+            let _ = std::fs::remove_file(f);
+        }
+        c.sample(json!({"op": what, "parts": nparts}));
+    });
+
+    rep.note("extra_resource_entries_tolerated", json!(EXTRA_RESOURCES_TOLERATED.load(Ordering::Relaxed)));
+    rep.note("resource_keys_renamed_consistently", json!(RENAMED_RESOURCES.load(Ordering::Relaxed)));
+    let _ = std::fs::remove_dir_all(&dir);
+}
